@@ -14,9 +14,9 @@ var untimedAssumptions = []string{
 
 func init() {
 	checks["C01"] = func(prop, tier string) int {
-		p := []plan{{"all1", 30}, {"rep2-d3", 30}, {"part2-d4", 40}, {"rep3-d3", 135}, {"crash3-d2", 67}, {"net3-d2", 30}, {"regained5-d2", 70}}
+		p := []plan{{"all1", 30}, {"rep2-d3", 30}, {"part2-d4", 40}, {"rep3-d3", 135}, {"crash3-d2", 67}, {"net3-d2", 30}, {"regained5-d2", 70}, {"slowapply3-d2", 30}}
 		if tier == "thorough" {
-			p = []plan{{"all1", 10}, {"all2", 150}, {"rep2-d5", 100}, {"rep3-d4", 500}, {"crash3-d3", 300}, {"net3-d3", 120}, {"lead3-d3", 300}, {"rep4-d3", 150}, {"rep5-d2", 60}, {"crash5-d2", 120}, {"part2-d5", 100}, {"part3-d3", 400}, {"part4-d3", 400}, {"regained5-d3", 300}, {"stale5-d3", 300}}
+			p = []plan{{"all1", 10}, {"all2", 150}, {"rep2-d5", 100}, {"rep3-d4", 500}, {"crash3-d3", 300}, {"net3-d3", 120}, {"lead3-d3", 300}, {"rep4-d3", 150}, {"rep5-d2", 60}, {"crash5-d2", 120}, {"part2-d5", 100}, {"part3-d3", 400}, {"part4-d3", 400}, {"regained5-d3", 300}, {"stale5-d3", 300}, {"slowapply3-d3", 400}}
 		}
 		sp := []schedPlan{{"sched-rep3", 2, 60}}
 		if tier == "thorough" {
@@ -47,9 +47,9 @@ func init() {
 		return clusterCheckSched(prop, tier, p, []string{"leader_present", "two_leaders_different_terms", "op_acked"}, untimedAssumptions, nil, sp)
 	}
 	checks["C03"] = func(prop, tier string) int {
-		p := []plan{{"cli3-d2", 35}, {"rep3-d3", 135}, {"net3-d2", 30}, {"pending3-d2", 40}, {"regainedelect5-d2", 60}, {"stoprestart3-d2", 30}}
+		p := []plan{{"cli3-d2", 35}, {"rep3-d3", 135}, {"net3-d2", 30}, {"pending3-d2", 40}, {"regainedelect5-d2", 60}, {"stoprestart3-d2", 30}, {"slowapply3-d2", 30}}
 		if tier == "thorough" {
-			p = []plan{{"cli3-d3", 200}, {"cli3-d4", 600}, {"rep3-d4", 500}, {"net3-d3", 120}, {"all2", 150}, {"rep4-d3", 150}, {"regainedelect5-d3", 400}, {"stoprestart3-d3", 200}}
+			p = []plan{{"cli3-d3", 200}, {"cli3-d4", 600}, {"rep3-d4", 500}, {"net3-d3", 120}, {"all2", 150}, {"rep4-d3", 150}, {"regainedelect5-d3", 400}, {"stoprestart3-d3", 200}, {"slowapply3-d3", 400}}
 		}
 		sp := []schedPlan{{"sched-rep3", 2, 60}}
 		if tier == "thorough" {
